@@ -35,7 +35,7 @@ ASSUMPTIONS = [
     "Constructor calls that omit fields or bind a field twice are not generated (python raises TypeError; the statement is silent).",
 ]
 BUDGET = {"quick": (6, 800), "thorough": (16, 6000)}
-EXHAUSTIVE_NOTE = "(b): dataclass and NamedTuple with 1-4 fields (plain, with an init=False field, with a keyword-only first field) x every positional/keyword split x every keyword order (+ unknown keyword, surplus argument), fully enumerated"
+EXHAUSTIVE_NOTE = "(b): dataclass and NamedTuple with 1-4 fields (plain, with an init=False field, with a keyword-only first field, with defaulted fields that the call may skip; directly and through a helper that uses the constructed value twice) x every positional/keyword split x every keyword order (+ unknown keyword, surplus argument), fully enumerated"
 EXHAUSTIVE_SHARDS = {"quick": 4, "thorough": 8}
 
 FIELDS = ["fa", "fb", "fc", "fd"]
@@ -84,12 +84,19 @@ def _dc_case(draw):
     kw = draw(st.permutations(fields[npos:]))
     bad = draw(st.sampled_from([None, None, None, None, "unknown", "surplus"]))
     style = draw(st.sampled_from(["dataclass", "namedtuple"]))
-    variant = draw(st.sampled_from([None, None, "init_false", "kw_only_first"])) if style == "dataclass" else None
-    case = {"kind": "dc", "style": style, "fields": fields, "pos": npos, "kw": [], "bad": bad, "variant": variant}
+    variant = draw(st.sampled_from([None, None, "init_false", "kw_only_first", "defaults", "defaults"])) if style == "dataclass" else None
+    via = draw(st.sampled_from([None, None, "helper-twice", "called-lambda-twice"]))
+    case = {"kind": "dc", "style": style, "fields": fields, "pos": npos, "kw": [], "bad": bad, "variant": variant, "via": via}
     order = _sig_order(case)
     if variant == "kw_only_first":
         case["pos"] = npos = min(npos, n - 1)
-    case["kw"] = list(draw(st.permutations(order[npos:])))
+    rest = list(order[npos:])
+    if variant == "defaults" and not bad:
+        if npos == 0:
+            case["pos"] = npos = 1  # the first field has no default
+            rest = list(order[1:])
+        rest = [f for f in rest if draw(st.booleans())]  # defaulted fields may be skipped
+    case["kw"] = list(draw(st.permutations(rest)))
     return case
 
 
@@ -125,6 +132,14 @@ def exhaustive(tier):
                     for npos in range(n + (0 if variant == "kw_only_first" else 1)):
                         for kw in itertools.permutations(order[npos:]):
                             yield dict(base, pos=npos, kw=list(kw), bad=None)
+            if style == "dataclass" and n >= 2:
+                for npos in range(1, n + 1):
+                    rest = fields[npos:]
+                    for k in range(len(rest) + 1):
+                        for sub in itertools.combinations(rest, k):
+                            for kw in itertools.permutations(sub):
+                                for via in (None, "helper-twice"):
+                                    yield {"kind": "dc", "style": style, "fields": fields, "variant": "defaults", "pos": npos, "kw": list(kw), "bad": None, "via": via}
             yield {"kind": "dc", "style": style, "fields": fields, "pos": n, "kw": [], "bad": "surplus"}
             yield {"kind": "dc", "style": style, "fields": fields, "pos": max(n - 1, 0), "kw": fields[max(n - 1, 0):], "bad": "unknown"}
 
@@ -217,6 +232,8 @@ def _dc_module(case):
         for i, f in enumerate(fields):
             if var == "kw_only_first" and i == 0:
                 lines.append(f"    {f}: float = field(kw_only=True)\n")
+            elif var == "defaults" and i > 0:
+                lines.append(f"    {f}: float = 0.0\n")
             else:
                 lines.append(f"    {f}: float\n")
             if var == "init_false" and i == 0:
@@ -238,7 +255,12 @@ def _dc_module(case):
             pos.pop()
         kws.insert(0 if len(fields) % 2 == 0 else len(kws), "zz=1")  # unknown keyword first or last
     args = pos + kws
-    return cls + f"def build(ds):\n    return ds.Select(lambda e: C({', '.join(args)}))\n", f"C({', '.join(args)})"
+    call = f"C({', '.join(args)})"
+    if case.get("via") == "helper-twice":
+        return cls + f"def twice(h):\n    return (h, h)\ndef build(ds):\n    return ds.Select(lambda e: twice({call}))\n", call
+    if case.get("via") == "called-lambda-twice":
+        return cls + f"def build(ds):\n    return ds.Select(lambda e: (lambda h: (h, h))({call}))\n", call
+    return cls + f"def build(ds):\n    return ds.Select(lambda e: {call})\n", call
 
 
 class _E:
@@ -274,7 +296,13 @@ def _check_dc(case, r: Result) -> Result:
         if case["bad"]:
             return r.fail(f"malformed constructor call {call} ({case['bad']} argument) was lowered to {ast.unparse(q.args[1])}")
         lam = q.args[1]
-        if not isinstance(lam.body, ast.Dict):
+        dict_nodes = [lam.body]
+        if case.get("via"):
+            r.labels.append("via:" + case["via"])
+            if not (isinstance(lam.body, ast.Tuple) and len(lam.body.elts) == 2):
+                return r.fail(f"twice({call}) was not lowered to a pair: {ast.unparse(lam)}")
+            dict_nodes = list(lam.body.elts)
+        if not all(isinstance(d, ast.Dict) for d in dict_nodes):
             return r.fail(f"{call} was not lowered to a dictionary: {ast.unparse(lam)}")
         import inspect
 
@@ -284,9 +312,13 @@ def _check_dc(case, r: Result) -> Result:
 
         want = eval(call, {"C": _Bind(), "e": _E})
         eval(call, {"C": mod.C, "e": _E})  # and the real constructor accepts the call
-        got = dict(pyeval.evaluate(lam, {})(_E))
-        if sorted(got.items()) != sorted(want.items()):
-            return r.fail(f"{call} lowered to {ast.unparse(lam.body)} = {got}; python's constructor binds {dict(want)}")
+        for dn in dict_nodes:
+            try:
+                got = dict(pyeval.evaluate(ast.Lambda(args=lam.args, body=dn), {})(_E))
+            except Exception as e:
+                return r.fail(f"{call} lowered to a dictionary that cannot be evaluated ({type(e).__name__}: {e}): {ast.dump(dn)[:300]}")
+            if sorted(got.items()) != sorted(want.items()):
+                return r.fail(f"{call} lowered to {ast.unparse(dn)} = {got}; python's constructor binds {dict(want)}  (whole lambda: {ast.unparse(lam)})")
     return r
 
 
